@@ -6,6 +6,8 @@ package main
 import (
 	"fmt"
 	"math"
+	"math/rand"
+	"sort"
 	"strings"
 
 	. "adharness/common"
@@ -352,7 +354,18 @@ func bitsEqual(a, b []float64) bool {
 
 func (g *gen) sagaCases(cfg *SagaCfg) {
 	n := len(cfg.X)
-	for _, pc := range poolSet(g.rng, g.tier, n) {
+	// round 7: every pool size 1..8 (the runs are tiny), so that n mod min(k, n) != 0 occurs for every n >= 3
+	pcs := poolSet(g.rng, g.tier, n)
+	have := map[int]bool{}
+	for _, pc := range pcs {
+		have[pc.K] = true
+	}
+	for k := 1; k <= 8; k++ {
+		if !have[k] {
+			pcs = append(pcs, PoolCfg{K: k, Buf: []int{1, 2, 100}[k%3], Nested: 0, Yield: k%2 == 0})
+		}
+	}
+	for _, pc := range pcs {
 		seq, spn := runSaga(cfg, pc, true)
 		var par SagaOut
 		var pn string
@@ -371,7 +384,38 @@ func (g *gen) sagaCases(cfg *SagaCfg) {
 		for i, p := range par.Parts {
 			ps[i] = fmt.Sprintf("(%d,%d)", p[0], p[1])
 		}
-		g.sw.Add(fmt.Sprintf("mkSaga %d %d [%s] %s", pc.K, n, strings.Join(ps, "; "), B(same)),
+		// round 7: which samples every epoch evaluates (hook VerifC17SagaTrace), on the nil pool and on the real pool,
+		// against the list drawn (recomputed here from the seed)
+		seqLog, spn2 := runSagaTrace(cfg, pc, true)
+		parLog, ppn2 := runSagaTrace(cfg, pc, false)
+		ne := len(seqLog)
+		if len(parLog) != ne || spn2 != "" || ppn2 != "" {
+			g.sw.Count("saga:trace-epochs-differ-or-panic")
+			if len(parLog) > ne {
+				ne = len(parLog)
+			}
+		}
+		drawn := sagaDrawn(cfg, ne)
+		eps := make([]string, ne)
+		for e := 0; e < ne; e++ {
+			var sl, pl []int
+			if e < len(seqLog) {
+				sl = seqLog[e]
+			}
+			if e < len(parLog) {
+				pl = parLog[e]
+			}
+			eps[e] = fmt.Sprintf("(%s, %s, %s)", zlist(drawn[e]), zlist(sl), zlist(pl))
+			if n%minInt(pc.K, n) != 0 {
+				g.sw.Count("saga:epoch-with-remainder")
+			} else {
+				g.sw.Count("saga:epoch-divisible")
+			}
+		}
+		if msg := sagaEvalOracle(cfg, pc); msg != "" {
+			g.sw.Count("saga:evaluated-multiset-differs-from-drawn")
+		}
+		g.sw.Add(fmt.Sprintf("mkSaga %d %d [%s] %s [%s]", pc.K, n, strings.Join(ps, "; "), B(same), strings.Join(eps, "; ")),
 			RawCase{Site: "saga", Pool: pc, Saga: cfg, Out: fmt.Sprintf("par=%+v seq=%+v", par, seq), Panic: pn + spn},
 			fmt.Sprintf("saga/n%d/k%d", n, pc.K), pc.K >= 2)
 		g.sw.Count("saga:" + rel(pc.K, n))
@@ -490,4 +534,90 @@ func (g *gen) numericCases(cfg *NumericCfg) {
 			fmt.Sprintf("numeric/n%d/k%d/w%v", n, pc.K, cfg.W != nil), n >= 2 && pc.K >= 2)
 		g.w.Count("numeric:" + rel(pc.K, nChunks(pc.K, n)))
 	}
+}
+
+
+// ---------------------------------------------------------------- round 7: the samples a SAGA epoch evaluates
+
+func minInt(a, b int) int {
+	if a < b {
+		return a
+	}
+	return b
+}
+
+func zlist(xs []int) string {
+	ss := make([]string, len(xs))
+	for i, x := range xs {
+		ss[i] = ZI(x)
+	}
+	return "[" + strings.Join(ss, "; ") + "]"
+}
+
+// the index lists Execute draws: rand.New(rand.NewSource(seed)), per epoch n times Intn(n) - recomputed with
+// math/rand, independently of the library
+func sagaDrawn(cfg *SagaCfg, epochs int) [][]int {
+	rg := rand.New(rand.NewSource(cfg.Seed))
+	n := len(cfg.X)
+	out := make([][]int, epochs)
+	for e := range out {
+		out[e] = make([]int, n)
+		for i := 0; i < n; i++ {
+			out[e][i] = rg.Intn(n)
+		}
+	}
+	return out
+}
+
+// evaluation log per epoch; sequential = the workers of a pool of pc.K threads iterated on the nil pool
+func runSagaTrace(cfg *SagaCfg, pc PoolCfg, sequential bool) (logs [][]int, panicked string) {
+	defer func() {
+		if r := recover(); r != nil {
+			panicked = fmt.Sprint(r)
+		}
+	}()
+	d := len(cfg.X[0]) - 1
+	est, err := vectorEstimator.NewLogisticRegression(d, true)
+	must(err)
+	est.L1Reg = cfg.L1
+	est.MaxIterations = cfg.Epochs
+	est.Epsilon = 0
+	est.Seed = cfg.Seed
+	xs := make([]ad.ConstVector, len(cfg.X))
+	for i, row := range cfg.X {
+		xs[i] = ad.AsSparseConstFloat64Vector(ad.NewDenseFloat64Vector(append([]float64{}, row...)))
+	}
+	must(est.SetData(xs, len(xs)))
+	pool := newPool(pc)
+	defer pool.Stop()
+	if sequential {
+		logs, _ = vectorEstimator.VerifC17SagaTrace(est, pool, true)
+	} else {
+		inPool(pool, pc.Nested, func(q tp.ThreadPool) { logs, _ = vectorEstimator.VerifC17SagaTrace(est, q, false) })
+	}
+	return
+}
+
+// property-level oracle (independent of the Coq model): in every epoch the multiset of evaluated sample indices is the
+// multiset drawn - nothing dropped, nothing evaluated twice - on the pool pc
+func sagaEvalOracle(cfg *SagaCfg, pc PoolCfg) string {
+	logs, pn := runSagaTrace(cfg, pc, false)
+	if pn != "" {
+		return "panic while tracing the SAGA epochs: " + pn
+	}
+	if len(logs) == 0 {
+		return "no SAGA epoch was executed"
+	}
+	drawn := sagaDrawn(cfg, len(logs))
+	for e := range logs {
+		a := append([]int{}, logs[e]...)
+		b := append([]int{}, drawn[e]...)
+		sort.Ints(a)
+		sort.Ints(b)
+		if fmt.Sprint(a) != fmt.Sprint(b) {
+			return fmt.Sprintf("SAGA epoch %d on a pool of %d threads (n=%d samples): the workers evaluated the samples %v (sorted) but the epoch drew %v (sorted): %d evaluations instead of %d - samples of the epoch are dropped or evaluated twice",
+				e, pc.K, len(cfg.X), a, b, len(a), len(b))
+		}
+	}
+	return ""
 }
